@@ -86,13 +86,30 @@ def extra_obligations(repo, D, pid):
                   z3.BoolVal(not missing), 0, 'unsat', {'syntactic': True, 'why': str(missing)}))
     # the type/range table itself is pinned (contracts/param_table.json): the ranges ARE the documented domain of C07, so a row that changes in params.py is a violation
     # ("out-of-range ... user parameters yield a result with the input-error flag"), not a new specification
-    import json, os
+    import json, os, itertools
+
+    def same_expr(a, b):
+        """two expressions of the table denote the same value: identical text, or equal values over a grid of (n, npt, maxfun, objfun_has_noise) (so a harmless rewrite of an
+        expression is not reported); an expression that cannot be evaluated (refers to self.params) falls back to text"""
+        if a == b:
+            return True
+        if a is None or b is None:
+            return False
+        try:
+            for n, extra, maxfun, noise in itertools.product((1, 2, 3, 5, 10), (1, 2, 3, 5, 20, 100), (1, 10, 1000), (False, True)):
+                env = {'n': n, 'npt': n + extra, 'maxfun': maxfun, 'objfun_has_noise': noise, 'None': None, 'True': True, 'False': False, 'min': min, 'max': max, 'int': int, 'float': float}
+                va, vb = eval(a, {'__builtins__': {}}, env), eval(b, {'__builtins__': {}}, env)
+                if va != vb or type(va) is not type(vb):
+                    return False
+            return True
+        except Exception:
+            return False
     pinned = json.load(open(os.path.join(os.path.dirname(os.path.abspath(__file__)), 'param_table.json')))['table']
     for key in sorted(set(pinned) | set(repo.param_types)):
         cur = repo.param_types.get(key)
         cur_row = [cur[0], cur[1], ast.unparse(cur[2]) if cur[2] is not None else None, ast.unparse(cur[3]) if cur[3] is not None else None] if cur else None
         out.append(Ob('ParameterList.param_type/frame[row of %s is the documented one: type, None allowed, lower, upper]' % key, 'frame', 'ParameterList.param_type', ['C07'], [],
-                      z3.BoolVal(cur_row == pinned.get(key)), 0, 'unsat', {'syntactic': True, 'why': 'now %s, documented %s' % (cur_row, pinned.get(key)), 'param_key': key,
+                      z3.BoolVal(cur_row is not None and pinned.get(key) is not None and cur_row[:2] == pinned[key][:2] and same_expr(cur_row[2], pinned[key][2]) and same_expr(cur_row[3], pinned[key][3])), 0, 'unsat', {'syntactic': True, 'why': 'now %s, documented %s' % (cur_row, pinned.get(key)), 'param_key': key,
                                                                             'documented': pinned.get(key), 'current': cur_row}))
     doc_defaults = json.load(open(os.path.join(os.path.dirname(os.path.abspath(__file__)), 'param_table.json'))).get('defaults', {})
     RANDOM_KEYS = ('init.random_initial_directions', 'init.run_in_parallel', 'init.random_directions_make_orthogonal', 'regression.momentum_extra_steps', 'restarts.increase_npt',
@@ -101,6 +118,6 @@ def extra_obligations(repo, D, pid):
         cur = ast.unparse(repo.param_defaults[key]) if key in repo.param_defaults else None
         tags = ['C07'] + (['C19'] if key in RANDOM_KEYS else [])
         out.append(Ob('ParameterList.__init__/frame[default of %s is the documented one]' % key, 'frame', 'ParameterList.__init__', tags, [],
-                      z3.BoolVal(cur == doc_defaults.get(key)), 0, 'unsat', {'syntactic': True, 'why': 'now %s, documented %s' % (cur, doc_defaults.get(key)),
+                      z3.BoolVal(same_expr(cur, doc_defaults.get(key))), 0, 'unsat', {'syntactic': True, 'why': 'now %s, documented %s' % (cur, doc_defaults.get(key)),
                                                                             'default_key': key, 'documented_default': doc_defaults.get(key), 'current_default': cur}))
     return out
